@@ -13,6 +13,7 @@ spec = {
               # "late_deps": [node…] — DirectoryNode dependencies, one per node, whose pattern matches that node's ordinary file;
               # "wrap": "top"|"mid"|"bottom" — position of a functools.wraps pass-through decorator in the decorator stack
               } ],
+  # optional: "data_via_link": bool — node paths are spelled through the symlink data_l -> data (C01 stream "spelling")
   "versions": {module: int},
   "inputs": {node: int}          # initial contents of non-product files
 }
@@ -221,8 +222,10 @@ def render_module(spec, m: int, src_value=None) -> str:
         "from pytask import Product, task, PathNode, PythonNode, DirectoryNode",
         "import _verif_rt as rt",
         *(["import _verif_mem"] if any(t.get("mem_out") or t.get("mem_in") for t in tasks) else []),
-        ("DATA = Path(__file__).resolve().parent.parent / 'data'" if module_subdir(spec, m) else
-         "DATA = Path(__file__).resolve().parent / 'data'"),
+        # optional spec field "data_via_link": every node path goes through the symbolic link data_l -> data and is NOT resolved
+        # (absolute, normalised spelling through a symlinked directory; plain Path and PathNode declarations must still agree)
+        (("DATA = Path(__file__).resolve().parent.parent / " if module_subdir(spec, m) else "DATA = Path(__file__).resolve().parent / ")
+         + ("'data_l'" if spec.get("data_via_link") else "'data'")),
         f"SRC = {module_content(spec, m) if src_value is None else src_value}",
         "",
     ]
@@ -491,6 +494,8 @@ def materialise(root: Path, spec, clock: Clock | None = None):
         (root / "_verif_mem.py").write_text(
             "from pytask import PythonNode\n_N = {}\n\ndef node(k):\n    if k not in _N:\n        _N[k] = PythonNode(name=f'mem{k}')\n    return _N[k]\n")
     (root / "data").mkdir(exist_ok=True)
+    if spec.get("data_via_link") and not (root / "data_l").is_symlink():
+        (root / "data_l").symlink_to("data", target_is_directory=True)
     for m in sorted({t["module"] for t in spec["tasks"]}):
         _ensure_subdir(root, spec, m)
         write_file(module_path(root, m, spec), render_module(spec, m), clock)
